@@ -15,13 +15,16 @@ class Val:
 class TopV(Val):
     kind = "top"
 
-    log = []      # every unknown value created (reasons), read by the engine's completeness guard
+    count = 0     # unknown values created so far in this process (the engine's completeness
+    recent = []   # guard compares the count before and after its fixpoint); the last reasons
 
     def __init__(self, why="", sym=None):
         self.why = why
         self.sym = sym or ("top", why)
-        if len(TopV.log) < 10000:
-            TopV.log.append(why)
+        TopV.count += 1
+        TopV.recent.append(why)
+        if len(TopV.recent) > 200:
+            del TopV.recent[:100]
 
     def __repr__(self):
         return "TOP({})".format(self.why)
@@ -203,6 +206,15 @@ class TupleV(Val):
 
     def __repr__(self):
         return "Tuple({})".format(self.items)
+
+
+class NamedTupleV(TupleV):
+    """a typing.NamedTuple value folded at import time: a tuple with field names and its class"""
+
+    def __init__(self, items, names, cref):
+        TupleV.__init__(self, items, False)
+        self.names = list(names)
+        self.cref = cref
 
 
 class DictV(Val):
